@@ -44,25 +44,25 @@ func init() {
 
 // protoFieldsUnset: proto message fields the transforms leave unset on purpose (frozen, one reason each).
 var protoFieldsUnset = map[string]string{
-	"Span.TraceState?":                               "",
-	"ExponentialHistogramDataPoint.ZeroThreshold":    "SDK always uses threshold 0 (proto default)",
-	"NumberDataPoint.Flags":                          "no-recorded-value flag is not used by the SDK",
-	"HistogramDataPoint.Flags":                       "no-recorded-value flag is not used by the SDK",
-	"ExponentialHistogramDataPoint.Flags":            "no-recorded-value flag is not used by the SDK",
-	"SummaryDataPoint.Flags":                         "no-recorded-value flag is not used by the SDK",
-	"Span_Event.*":                                   "",
-	"InstrumentationScope.DroppedAttributesCount":    "SDK scopes never drop attributes",
-	"Resource.DroppedAttributesCount":                "SDK resources never drop attributes",
-	"KeyValueList.*":                                 "",
-	"Metric.Metadata":                                "SDK metrics carry no metadata attributes",
-	"Exemplar.Value":                                 "oneof: set through the typed wrapper after the literal",
-	"NumberDataPoint.Value":                          "oneof: set through the typed wrapper after the literal",
-	"Metric.Data":                                    "oneof: set in the type switch after the literal",
-	"AnyValue.Value":                                 "oneof: set in the type switch after new(AnyValue)",
-	"ScopeLogs.*":                                    "",
-	"ResourceLogs.*":                                 "",
-	"Resource.EntityRefs":                            "entities are not produced by this SDK version",
-	"ScopeSpans.*":                                   "",
+	"Span.TraceState?": "",
+	"ExponentialHistogramDataPoint.ZeroThreshold": "SDK always uses threshold 0 (proto default)",
+	"NumberDataPoint.Flags":                       "no-recorded-value flag is not used by the SDK",
+	"HistogramDataPoint.Flags":                    "no-recorded-value flag is not used by the SDK",
+	"ExponentialHistogramDataPoint.Flags":         "no-recorded-value flag is not used by the SDK",
+	"SummaryDataPoint.Flags":                      "no-recorded-value flag is not used by the SDK",
+	"Span_Event.*":                                "",
+	"InstrumentationScope.DroppedAttributesCount": "SDK scopes never drop attributes",
+	"Resource.DroppedAttributesCount":             "SDK resources never drop attributes",
+	"KeyValueList.*":                              "",
+	"Metric.Metadata":                             "SDK metrics carry no metadata attributes",
+	"Exemplar.Value":                              "oneof: set through the typed wrapper after the literal",
+	"NumberDataPoint.Value":                       "oneof: set through the typed wrapper after the literal",
+	"Metric.Data":                                 "oneof: set in the type switch after the literal",
+	"AnyValue.Value":                              "oneof: set in the type switch after new(AnyValue)",
+	"ScopeLogs.*":                                 "",
+	"ResourceLogs.*":                              "",
+	"Resource.EntityRefs":                         "entities are not produced by this SDK version",
+	"ScopeSpans.*":                                "",
 }
 
 func isProtoMsg(t types.Type) *types.Named {
@@ -485,7 +485,7 @@ func c13Copy(c *Ctx, ix *PkgIndex, xc xformCopy) []string {
 		{"Sum", "IsMonotonic", "IsMonotonic"}, {"Metric", "Name", "Name"}, {"Metric", "Description", "Description"}, {"Metric", "Unit", "Unit"},
 		{"SummaryDataPoint", "Count", "Count"}, {"SummaryDataPoint", "Sum", "Sum"}, {"SummaryDataPoint_ValueAtQuantile", "Quantile", "Quantile"}, {"SummaryDataPoint_ValueAtQuantile", "Value", "Value"},
 		{"Span_Link", "TraceId", "SpanContext.TraceID()"}, {"Span_Link", "SpanId", "SpanContext.SpanID()"}, {"Span_Link", "TraceState", "SpanContext.TraceState()"}, {"Span", "TraceState", "SpanContext().TraceState()"}, {"Span_Event", "TimeUnixNano", ".Time"}, {"Span_Event", "Name", "Name"},
-		 {"ScopeSpans", "SchemaUrl", "SchemaURL"}, {"ResourceSpans", "SchemaUrl", "SchemaURL"},
+		{"ScopeSpans", "SchemaUrl", "SchemaURL"}, {"ResourceSpans", "SchemaUrl", "SchemaURL"},
 	}
 	for _, pv := range prov {
 		src, ok := pa[pv.msg][pv.fld]
@@ -761,7 +761,10 @@ func c13Copy(c *Ctx, ix *PkgIndex, xc xformCopy) []string {
 		return ok && !nn
 	}
 	isErrArm := func(cnd ast.Expr, pol int) bool {
-		nn, ok := nilCmp(info, cnd, pol, func(x ast.Expr) bool { v, isV := objOf(info, x).(*types.Var); return isV && strings.Contains(strings.ToLower(v.Name()), "err") })
+		nn, ok := nilCmp(info, cnd, pol, func(x ast.Expr) bool {
+			v, isV := objOf(info, x).(*types.Var)
+			return isV && strings.Contains(strings.ToLower(v.Name()), "err")
+		})
 		return ok && nn
 	}
 	never := func(ast.Expr, int) bool { return false }
